@@ -114,3 +114,12 @@ Theorem C11_vocabulary_types_equal_iff_identical_object :
   forall i j, ty_eqb (TVoc i) (TVoc j) = true <-> i = j.
 Proof. exact voc_eq_iff_identical. Qed.
 Print Assumptions C11_vocabulary_types_equal_iff_identical_object.
+
+(* non-vacuity: the documented chain scalar < any < any-of-16 < vocabulary 0 (16-d); incomparable pairs; a coercion *)
+Example C11_hypotheses_met :
+  let dim := fun i => if Nat.eqb i 2 then 32 else 16 in
+  ty_le dim TScalar TAny = true /\ ty_le dim TAny (TAnyDim 16) = true /\ ty_le dim (TAnyDim 16) (TVoc 0) = true /\
+  ty_le dim (TVoc 0) (TVoc 1) = false /\ ty_le dim (TAnyDim 16) (TVoc 2) = false /\
+  coerce_types dim [TScalar; TVoc 1; TAnyDim 16] = COk (TVoc 1) /\
+  coerce_types dim [TVoc 0; TVoc 1] = CTypeError DifferentVocabularies.
+Proof. vm_compute. repeat split; reflexivity. Qed.
